@@ -128,7 +128,7 @@ theorem foldl_keeps (all : Nat → List String) (parent : Nat → Option Nat) (f
 /-! ### container type of sequence fields
 
   `type_map` sends `list[T]`, `tuple[T]` and `set[T]` to the same array / payload-list format and the packers decode a
-  Python `list`; since a531c88 `convert_to_payload` installs `fix_unpack_<field> = tuple | set` for fields annotated
+  Python `list`; since 60e7956 `convert_to_payload` installs `fix_unpack_<field> = tuple | set` for fields annotated
   `tuple[...]` / `set[...]`, so the compiled `from_unpack_list` restores the annotated container. -/
 
 inductive Container where
